@@ -27,6 +27,15 @@ CLAIMED = {
  "C11": dict(level="model_checking", ref="DESIGN.md 5 (C11)",
    text="All assignments of 8 registration kinds to 2 known + 2 unknown paths (one unknown path a proper suffix of a known one) x 3 registries x all map-iteration schedules with <= 2 deviating points: the validation result, as sets, must equal a set-algebra model of 'unknown paths' (each once, union of specific and recursive registrations, substitutes with targets). All ordered selections of <= 4 registry paths x 9 queries for the similar-path query against a list model.",
    note="Set/list reference models written from the property statement."),
+ "C12": dict(level="model_checking", ref="DESIGN.md 5 (C12)",
+   text="Every registry of D-graph (type graphs with cycles, empty enums, compact wrappers, generics), D-arms and every id of the Polkadot registry x every id x every seed of an enumerated seed range, evaluated in crash-isolated worker subprocesses: no panic, termination, same seed same value, Ok whenever no cycle and no empty enum is reachable, and every returned value must encode against the type id, decode back consuming all input, and equal the original.",
+   note="Seeds are enumerated over a stated range (the variant coverage reached is measured and reported); chars cannot be encoded by scale-encode 0.10 at all (recorded known finding)."),
+ "C13": dict(level="model_checking", ref="DESIGN.md 5 (C13)",
+   text="The same registries plus D-generic x every id x {plain, formatted}, in crash-isolated workers: the description must succeed and be read completely by a lock-step reader walking it together with the registry (field names, variants, primitives, array lengths, tuple arity incl. one-element marker, Box/Compact/Vec wrappers, generic arguments with `_` for skipped ones; expanded or name form at each position), every reachable struct/enum must be written out in full at least once, and formatted == unformatted modulo whitespace.",
+   note="The reader is written from the property statement; termination = result within 10 s in a worker."),
+ "C14": dict(level="model_checking", ref="DESIGN.md 5 (C14)",
+   text="The same registries (ids reaching bit sequences / 256-bit integers excluded) x every id x enumerated seeds x 2 path settings, in crash-isolated workers: every returned example must parse as syn::Expr and be read by a lock-step reader against the item the generator emits for the same id (generated path without generics, field names and arity including the unused-parameter marker, typed literals, tuple / array / vec shape); same seed same tokens; recursion gives Err, not a crash.",
+   note="The reader is lenient exactly where the statement is (Compact(..) accepted never required, prelude composites only by path and components)."),
  "C15": dict(level="model_checking", ref="DESIGN.md 5 (C15)",
    text="Exhaustive enumeration of the formatter's input space up to a length bound (all strings over the 9-symbol alphabet; all properly nested strings to a larger bound; macro-letter strings straddling the 32-character look-ahead; every description the crate produces for Polkadot and D-arms), each run through the real formatter and compared with the whitespace-erasure oracle and an independent indentation reader.",
    note="The 'randomly for longer strings' clause is not sampled (sampling is a different family); longer strings are covered by the structured families only. Termination = completion inside the wall budget."),
